@@ -140,7 +140,10 @@ class RawMeshData:
 
     def _prepare_vertices(self):
         for iv in self.id_vertices:
-            self.vertices[iv] = Vec(self.vertices[iv])
+            v = Vec(self.vertices[iv])
+            if v.size<3: # 2D (or 1D) input: pad with zeros
+                v = Vec(list(v) + [0.]*(3-v.size))
+            self.vertices[iv] = v
 
     def _prepare_edges(self):
         N = len(self.vertices)
